@@ -59,7 +59,7 @@ func (f *frame) execInstr(in ssa.Instruction, st *State, reach string) error {
 	switch in := in.(type) {
 	case *ssa.Alloc:
 		elemT := in.Type().Underlying().(*types.Pointer).Elem()
-		obj := x.sc.Define("new", "Int", x.alloc(st))
+		obj := x.sc.DefineAlways("new", "Int", x.alloc(st))
 		p := Val{Typ: in.Type(), L: []string{obj}}
 		x.store(st, p, x.eng.zeroVal(elemT), reach, token.NoPos)
 		f.set(in, p)
@@ -200,7 +200,7 @@ func (f *frame) execInstr(in ssa.Instruction, st *State, reach string) error {
 	case *ssa.MakeMap:
 		mt := in.Type().Underlying().(*types.Map)
 		ks, ok := keySort(mt.Key())
-		obj := x.sc.Define("newmap", "Int", x.alloc(st))
+		obj := x.sc.DefineAlways("newmap", "Int", x.alloc(st))
 		if ok {
 			name := x.mdName(mt)
 			sort := "(Array Int (Array " + ks + " Bool))"
@@ -220,7 +220,7 @@ func (f *frame) execInstr(in ssa.Instruction, st *State, reach string) error {
 		stt := in.Type().Underlying().(*types.Slice)
 		n := f.value(in.Len, st, reach)
 		x.safeCond("(<= 0 "+n.L[0]+")", reach, in.Pos(), "makeslice-len")
-		obj := x.sc.Define("newarr", "Int", x.alloc(st))
+		obj := x.sc.DefineAlways("newarr", "Int", x.alloc(st))
 		for _, l := range x.eng.layout(stt.Elem()) {
 			name := x.eName(stt.Elem(), l.Path)
 			sort := "(Array Int (Array Int " + l.Sort + "))"
@@ -248,7 +248,7 @@ func (f *frame) execInstr(in ssa.Instruction, st *State, reach string) error {
 		x.note("select at %s: results havocked", x.pos(in.Pos()))
 		f.set(in, x.freshVal(in.Type(), "select", st, reach))
 	case *ssa.MakeChan:
-		obj := x.sc.Define("newchan", "Int", x.alloc(st))
+		obj := x.sc.DefineAlways("newchan", "Int", x.alloc(st))
 		f.set(in, Val{Typ: in.Type(), L: []string{obj}})
 	case *ssa.SliceToArrayPointer, *ssa.MultiConvert:
 		f.set(in.(ssa.Value), x.unsup(fmt.Sprintf("%T", in), in.(ssa.Value).Type(), st, reach))
@@ -500,7 +500,7 @@ func (x *Exec) convert(v Val, from, to types.Type, st *State, reach string) Val 
 		return Val{Typ: to, L: v.L}
 	case isStringT(from) && isSlice(to):
 		// []byte(s): fresh array whose contents are tied to s by bytesOf/strOf
-		obj := x.sc.Define("newarr", "Int", x.alloc(st))
+		obj := x.sc.DefineAlways("newarr", "Int", x.alloc(st))
 		elem := to.Underlying().(*types.Slice).Elem()
 		if isIntT(elem) {
 			name := x.eName(elem, "")
@@ -622,7 +622,7 @@ func (x *Exec) makeInterface(v Val, from, to types.Type, st *State, reach string
 		return Val{Typ: to, L: []string{tag, "0"}}
 	}
 	// composite: allocate a box cell of the concrete type
-	obj := x.sc.Define("boxobj", "Int", x.alloc(st))
+	obj := x.sc.DefineAlways("boxobj", "Int", x.alloc(st))
 	if len(ls) == len(v.L) {
 		x.store(st, Val{Typ: types.NewPointer(from), L: []string{obj}}, v, reach, token.NoPos)
 	}
@@ -801,7 +801,7 @@ func (x *Exec) sliceOp(in *ssa.Slice, xv Val, f *frame, st *State, reach string)
 		if !ok2 {
 			return x.unsup("slice of odd array pointer", in.Type(), st, reach)
 		}
-		obj := x.sc.Define("newarr", "Int", x.alloc(st))
+		obj := x.sc.DefineAlways("newarr", "Int", x.alloc(st))
 		els := x.eng.layout(at.Elem())
 		for _, l := range els {
 			name := x.eName(at.Elem(), l.Path)
@@ -856,7 +856,7 @@ func (x *Exec) appendOp(s, t Val, sliceT types.Type, st *State, reach string) Va
 		t = x.eng.zeroVal(sliceT)
 	}
 	elemT := stt.Elem()
-	obj := x.sc.Define("newarr", "Int", x.alloc(st))
+	obj := x.sc.DefineAlways("newarr", "Int", x.alloc(st))
 	newLen := x.sc.Define("len", "Int", add(s.L[2], t.L[2]))
 	var n int64 = -1
 	if isLiteral(t.L[2]) && !strings.HasPrefix(t.L[2], "(") {
